@@ -21,10 +21,13 @@ import (
 	"strconv"
 	"strings"
 	"sync/atomic"
+	"syscall"
 	"testing"
 	"time"
 
+	proxyproto "github.com/pires/go-proxyproto"
 	jconfig "go.minekube.com/gate/pkg/edition/java/config"
+	"go.minekube.com/gate/pkg/edition/java/lite"
 	liteconfig "go.minekube.com/gate/pkg/edition/java/lite/config"
 	"go.minekube.com/gate/pkg/edition/java/proxy"
 	"go.minekube.com/gate/pkg/edition/java/proxy/zzverif/vrt"
@@ -227,7 +230,40 @@ type c31Case struct {
 	Client  string   `json:"client"`
 	Backend string   `json:"backend"`
 	SameSeg bool     `json:"same_segment"`
+	Front   string   `json:"front,omitempty"`   // "" = tcp4 | tcp6 | pp4 | pp6 (how the client reaches the proxy)
+	BV      string   `json:"backends,omitempty"` // "" = single | failover | v6 | hostname (the route's backend list)
+	Status  bool     `json:"status,omitempty"`  // next state 1: a status ping instead of a login
 	Chunks  []string `json:"-"`
+}
+
+// fronts: how the client connection reaches Proxy.HandleConn.
+//   tcp4 / tcp6: a plain TCP connection from 127.0.0.1 / ::1
+//   pp4 / pp6:   a TCP connection from a trusted load balancer that announces the real client with a PROXY v1
+//                header; the accepted connection is wrapped with go-proxyproto (policy USE) exactly like the
+//                proxy's own listener does, so conn.RemoteAddr() is the announced client, not the TCP peer
+var fronts = []string{"tcp4", "tcp6", "pp4", "pp6"}
+
+var ppLine = map[string]string{
+	"pp4": "PROXY TCP4 203.0.113.7 198.51.100.1 4242 25565\r\n",
+	"pp6": "PROXY TCP6 2001:db8::7 2001:db8::1 4242 25565\r\n",
+}
+var ppClient = map[string]string{"pp4": "203.0.113.7:4242", "pp6": "[2001:db8::7]:4242"}
+
+// backend variants: the backend list of the route.
+//   single:   [127.0.0.1:B4]
+//   failover: [127.0.0.2:D (bound, not listening: refuses), 127.0.0.1:B4] - the second one gets the connection
+//   v6:       [[::1]:B6]
+//   hostname: [localhost:B4], and TCPShield real-IP is switched on through the deprecated realIP option
+var backendVariants = []string{"single", "failover", "v6", "hostname"}
+
+func bvHost(bv string) string {
+	switch bv {
+	case "v6":
+		return "::1"
+	case "hostname":
+		return "localhost"
+	}
+	return "127.0.0.1"
 }
 
 type stream struct {
@@ -256,6 +292,14 @@ func clientStreams(thorough bool) []stream {
 		s = append(s, stream{"300KiB-3-chunks", [][]byte{big(100000, 1), big(100000, 2), big(100000, 3)}})
 	}
 	return s
+}
+
+var statusJSON = `{"version":{"name":"c31","protocol":765},"players":{"max":20,"online":3},"description":{"text":"c31 \u00e9 status"}}`
+
+func statusRequestStream() stream { return stream{"status-request", [][]byte{{0x01, 0x00}}} }
+func statusResponseStream() stream {
+	body := append([]byte{0x00}, append(varint(len(statusJSON)), statusJSON...)...)
+	return stream{"status-response", [][]byte{frame(body, false)}}
 }
 
 func backendStreams(thorough bool) []stream {
@@ -300,6 +344,7 @@ func handshakes(thorough bool) []hsSpec {
 type backendResult struct {
 	got      []byte
 	peer     string // proxy-side address of the backend connection
+	local    string // backend-side address: which listener took it
 	err      error
 	sentinel bool
 }
@@ -311,85 +356,195 @@ var sentinelMagic = []byte("\x00c31-sentinel\x00\xde\xad\xbe\xef")
 
 type rig struct {
 	p        *proxy.Proxy
-	front    net.Listener // clients connect here; accepted conns go to HandleConn
-	back     net.Listener
+	front    map[string]net.Listener // clients connect here; accepted conns go to HandleConn
+	back     net.Listener            // 127.0.0.1:B4
+	back6    net.Listener            // [::1]:B6 (nil when the machine has no IPv6 loopback)
+	deadFD   int                     // socket bound to 127.0.0.2:D, never listening: connecting is refused
+	deadAddr string
 	backRes  chan backendResult
 	backSend chan [][]byte
 	accepted chan struct{} // one token per backend connection accepted
 	hostOf   map[int]string
 }
 
+func routeHost(opt int, bv string) string {
+	if bv == "" || bv == "single" {
+		return fmt.Sprintf("o%d.lite.test", opt)
+	}
+	return fmt.Sprintf("o%d.%s.lite.test", opt, bv)
+}
+
+func (g *rig) serveBackend(ln net.Listener) {
+	for {
+		c, err := ln.Accept()
+		if err != nil {
+			return
+		}
+		g.accepted <- struct{}{}
+		// one case at a time: what to send was queued before the client connected
+		var send [][]byte
+		select {
+		case send = <-g.backSend:
+		default:
+		}
+		go func() {
+			for _, ch := range send {
+				if _, err := c.Write(ch); err != nil {
+					break
+				}
+			}
+		}()
+		got, err := io.ReadAll(c)
+		peer, local := c.RemoteAddr().String(), c.LocalAddr().String()
+		_ = c.Close()
+		g.backRes <- backendResult{got: got, peer: peer, local: local, err: err, sentinel: bytes.Equal(got, sentinelMagic)}
+	}
+}
+
 func newRig() (*rig, error) {
-	g := &rig{backRes: make(chan backendResult, 64), backSend: make(chan [][]byte, 1), accepted: make(chan struct{}, 64), hostOf: map[int]string{}}
+	g := &rig{backRes: make(chan backendResult, 64), backSend: make(chan [][]byte, 1), accepted: make(chan struct{}, 64), hostOf: map[int]string{},
+		front: map[string]net.Listener{}, deadFD: -1}
 	var err error
-	if g.front, err = net.Listen("tcp", "127.0.0.1:0"); err != nil {
-		return nil, err
+	for _, k := range fronts {
+		addr := "127.0.0.1:0"
+		if k == "tcp6" {
+			addr = "[::1]:0"
+		}
+		ln, err := net.Listen("tcp", addr)
+		if err != nil {
+			if k == "tcp6" {
+				continue // no IPv6 loopback: the tcp6 cases are skipped and reported as a class
+			}
+			return nil, err
+		}
+		g.front[k] = ln
 	}
 	if g.back, err = net.Listen("tcp", "127.0.0.1:0"); err != nil {
 		return nil, err
 	}
+	g.back6, _ = net.Listen("tcp", "[::1]:0")
+	// a refusing backend whose port stays reserved: bound, but never listening
+	if fd, err := syscall.Socket(syscall.AF_INET, syscall.SOCK_STREAM, 0); err == nil {
+		if err = syscall.Bind(fd, &syscall.SockaddrInet4{Addr: [4]byte{127, 0, 0, 2}}); err == nil {
+			if sa, err := syscall.Getsockname(fd); err == nil {
+				g.deadFD, g.deadAddr = fd, fmt.Sprintf("127.0.0.2:%d", sa.(*syscall.SockaddrInet4).Port)
+			}
+		}
+		if g.deadFD < 0 {
+			_ = syscall.Close(fd)
+		}
+	}
+	_, b4port, _ := net.SplitHostPort(g.back.Addr().String())
 	cfg := jconfig.DefaultConfig
-	cfg.Bind = g.front.Addr().String()
+	cfg.Bind = g.front["tcp4"].Addr().String()
 	cfg.Quota.Connections.Enabled = false
 	cfg.Quota.Logins.Enabled = false
 	cfg.PacketLimiter.PacketsPerSecond = -1
 	cfg.PacketLimiter.BytesPerSecond = -1
 	cfg.Lite.Enabled = true
-	for i := 0; i < 16; i++ {
-		o := opts{i&1 != 0, i&2 != 0, i&4 != 0, i&8 != 0}
-		host := fmt.Sprintf("o%d.lite.test", i)
-		g.hostOf[i] = host
-		rt := liteconfig.Route{Host: []string{host}, Backend: []string{g.back.Addr().String()}, ProxyProtocol: o.ProxyProtocol,
-			ModifyVirtualHost: o.ModifyVirtualHost, TCPShieldRealIP: o.TCPShield, CachePingTTL: -1}
-		if o.CachePing {
-			rt.CachePingTTL = 0 // default: enabled
+	for _, bv := range backendVariants {
+		var backends []string
+		switch bv {
+		case "single":
+			backends = []string{g.back.Addr().String()}
+		case "failover":
+			if g.deadFD < 0 {
+				continue
+			}
+			backends = []string{g.deadAddr, g.back.Addr().String()}
+		case "v6":
+			if g.back6 == nil {
+				continue
+			}
+			backends = []string{g.back6.Addr().String()}
+		case "hostname":
+			backends = []string{"localhost:" + b4port}
 		}
-		cfg.Lite.Routes = append(cfg.Lite.Routes, rt)
+		for i := 0; i < 16; i++ {
+			o := opts{i&1 != 0, i&2 != 0, i&4 != 0, i&8 != 0}
+			host := routeHost(i, bv)
+			if bv == "single" {
+				g.hostOf[i] = host
+			}
+			rt := liteconfig.Route{Host: []string{host}, Backend: backends, ProxyProtocol: o.ProxyProtocol,
+				ModifyVirtualHost: o.ModifyVirtualHost, TCPShieldRealIP: o.TCPShield, CachePingTTL: -1}
+			if bv == "hostname" {
+				rt.TCPShieldRealIP, rt.RealIP = false, o.TCPShield // the deprecated spelling of the same switch
+			}
+			if o.CachePing {
+				rt.CachePingTTL = 0 // default: enabled
+			}
+			cfg.Lite.Routes = append(cfg.Lite.Routes, rt)
+		}
 	}
 	g.hostOf[16] = "127.0.0.1"
 	cfg.Lite.Routes = append(cfg.Lite.Routes, liteconfig.Route{Host: []string{"127.0.0.1"}, Backend: []string{g.back.Addr().String()}, ModifyVirtualHost: true, CachePingTTL: -1})
 	if g.p, err = proxy.New(proxy.Options{Config: &cfg}); err != nil {
 		return nil, err
 	}
-	go func() {
-		for {
-			c, err := g.front.Accept()
-			if err != nil {
-				return
-			}
-			go g.p.HandleConn(c)
-		}
-	}()
-	go func() {
-		for {
-			c, err := g.back.Accept()
-			if err != nil {
-				return
-			}
-			g.accepted <- struct{}{}
-			// one case at a time: what to send was queued before the client connected
-			var send [][]byte
-			select {
-			case send = <-g.backSend:
-			default:
-			}
-			go func() {
-				for _, ch := range send {
-					if _, err := c.Write(ch); err != nil {
-						break
-					}
+	for k, ln := range g.front {
+		k, ln := k, ln
+		go func() {
+			for {
+				c, err := ln.Accept()
+				if err != nil {
+					return
 				}
-			}()
-			got, err := io.ReadAll(c)
-			peer := c.RemoteAddr().String()
-			_ = c.Close()
-			g.backRes <- backendResult{got: got, peer: peer, err: err, sentinel: bytes.Equal(got, sentinelMagic)}
-		}
-	}()
+				if ppLine[k] != "" {
+					// what Proxy.listenAndServe does for a trusted upstream when proxyProtocol is enabled
+					c = proxyproto.NewConn(c, proxyproto.WithPolicy(proxyproto.USE))
+				}
+				go g.p.HandleConn(c)
+			}
+		}()
+	}
+	go g.serveBackend(g.back)
+	if g.back6 != nil {
+		go g.serveBackend(g.back6)
+	}
 	return g, nil
 }
 
-func (g *rig) close() { _ = g.front.Close(); _ = g.back.Close() }
+// available reports whether the machine can run the variant (IPv6 loopback, 127.0.0.2).
+func (g *rig) available(front, bv string) bool {
+	if front == "" {
+		front = "tcp4"
+	}
+	if g.front[front] == nil {
+		return false
+	}
+	switch bv {
+	case "failover":
+		return g.deadFD >= 0
+	case "v6":
+		return g.back6 != nil
+	case "hostname":
+		addrs, err := net.LookupHost("localhost")
+		if err != nil {
+			return false
+		}
+		for _, a := range addrs {
+			if a == "127.0.0.1" {
+				return true
+			}
+		}
+		return false
+	}
+	return true
+}
+
+func (g *rig) close() {
+	for _, ln := range g.front {
+		_ = ln.Close()
+	}
+	_ = g.back.Close()
+	if g.back6 != nil {
+		_ = g.back6.Close()
+	}
+	if g.deadFD >= 0 {
+		_ = syscall.Close(g.deadFD)
+	}
+}
 
 type caseResult struct {
 	hung        bool
@@ -402,16 +557,24 @@ type caseResult struct {
 }
 
 // runCase plays one connection. Returns hung=true when the watchdog fired.
-func (g *rig) runCase(hsBytes []byte, cl, bk stream, sameSeg bool) caseResult {
+func (g *rig) runCase(front string, hsBytes []byte, cl, bk stream, sameSeg, status bool) caseResult {
 	var res caseResult
+	if front == "" {
+		front = "tcp4"
+	}
 	g.backSend <- bk.Chunks
-	c, err := net.Dial("tcp", g.front.Addr().String())
+	c, err := net.Dial("tcp", g.front[front].Addr().String())
 	if err != nil {
 		res.clientErr = err
 		<-g.backSend
 		return res
 	}
 	res.clientAddr = c.LocalAddr().String()
+	if ppLine[front] != "" {
+		// the load balancer's header travels in the same segment as the handshake
+		res.clientAddr = ppClient[front]
+		hsBytes = append([]byte(ppLine[front]), hsBytes...)
+	}
 	done := make(chan struct{})
 	var hung atomic.Bool
 	watchdog := time.AfterFunc(60*time.Second, func() {
@@ -437,7 +600,10 @@ func (g *rig) runCase(hsBytes []byte, cl, bk stream, sameSeg bool) caseResult {
 		// Later chunks go out only after the proxy has dialled the backend, i.e. after it has read
 		// the handshake: what sits in the proxy's read buffer next to the handshake (the
 		// emptyReadBuff path) is then decided by same_segment alone, not by timing.
-		<-g.accepted
+		// (A status ping is different: the proxy dials only after it has read the status request.)
+		if !status {
+			<-g.accepted
+		}
 		for _, ch := range chunks {
 			if _, err := c.Write(ch); err != nil {
 				res.clientErr = err
@@ -468,22 +634,30 @@ func (g *rig) runCase(hsBytes []byte, cl, bk stream, sameSeg bool) caseResult {
 	}
 	// The proxy closed our connection, so Forward has returned and has already closed its backend
 	// connection (if it ever made one). Collect everything accepted before the sentinel.
-	if s, err := net.Dial("tcp", g.back.Addr().String()); err == nil {
-		_, _ = s.Write(sentinelMagic)
-		_ = s.(*net.TCPConn).CloseWrite()
-		_, _ = io.ReadAll(s)
-		_ = s.Close()
-	} else {
-		res.clientErr = fmt.Errorf("sentinel dial: %w", err)
-		return res
+	sentinels := 0
+	for _, ln := range []net.Listener{g.back, g.back6} {
+		if ln == nil {
+			continue
+		}
+		if s, err := net.Dial("tcp", ln.Addr().String()); err == nil {
+			_, _ = s.Write(sentinelMagic)
+			_ = s.(*net.TCPConn).CloseWrite()
+			_, _ = io.ReadAll(s)
+			_ = s.Close()
+			sentinels++
+		} else {
+			res.clientErr = fmt.Errorf("sentinel dial: %w", err)
+			return res
+		}
 	}
 	for len(g.accepted) > 0 {
 		<-g.accepted
 	}
-	for {
+	for sentinels > 0 {
 		b := <-g.backRes
 		if b.sentinel {
-			break
+			sentinels--
+			continue
 		}
 		if !res.backendSeen {
 			res.backend, res.backendSeen = b, true
@@ -522,13 +696,23 @@ func firstDiff(a, b []byte) int {
 }
 
 // check compares what the backend and the client saw with the reference.
-func (g *rig) check(o opts, hs hsSpec, host string, hsBytes, hsCanon []byte, cl, bk stream, sameSeg bool, res caseResult) (key, desc string) {
+func (g *rig) check(c c31Case, o opts, hs hsSpec, host string, hsBytes, hsCanon []byte, cl, bk stream, sameSeg bool, res caseResult) (key, desc string) {
 	ctx := fmt.Sprintf("options=%+v handshake=%s host=%q client=%s backend=%s same-segment=%v", o, hs.Name, host, cl.Name, bk.Name, sameSeg)
+	if c.Front != "" || c.BV != "" || c.Status {
+		ctx += fmt.Sprintf(" front=%s(client %s) backends=%s status-ping=%v", c.Front, res.clientAddr, c.BV, c.Status)
+	}
 	if !res.backendSeen {
 		return "backend/never-dialled", ctx + fmt.Sprintf(": the route matches but no backend connection was made (client error: %v)", res.clientErr)
 	}
 	if res.backendN != 1 {
 		return "backend/dialled-more-than-once", ctx + fmt.Sprintf(": %d backend connections for one client connection", res.backendN)
+	}
+	wantListener := g.back
+	if c.BV == "v6" {
+		wantListener = g.back6
+	}
+	if res.backend.local != wantListener.Addr().String() {
+		return "backend/wrong-backend", ctx + fmt.Sprintf(": the connection arrived at %s, the route's (live) backend is %s", res.backend.local, wantListener.Addr())
 	}
 	// client side: every backend byte
 	if want := flat(bk.Chunks); !bytes.Equal(res.clientGot, want) {
@@ -544,15 +728,15 @@ func (g *rig) check(o opts, hs hsSpec, host string, hsBytes, hsCanon []byte, cl,
 		if src != res.clientAddr {
 			return "proxy-header/wrong-source", ctx + fmt.Sprintf(": PROXY header source %s, the client's real address is %s", src, res.clientAddr)
 		}
-		if dst != g.back.Addr().String() {
-			return "proxy-header/wrong-destination", ctx + fmt.Sprintf(": PROXY header destination %s, backend is %s", dst, g.back.Addr())
+		if dst != res.backend.local {
+			return "proxy-header/wrong-destination", ctx + fmt.Sprintf(": PROXY header destination %s, backend is %s", dst, res.backend.local)
 		}
 		got = got[n:]
 	} else if _, _, _, err := parseProxyHeader(got); err == nil {
 		return "proxy-header/sent-although-disabled", ctx + ": backend stream starts with a PROXY header"
 	}
 	rest := flat(cl.Chunks)
-	backendHost, _, _ := net.SplitHostPort(g.back.Addr().String())
+	backendHost := bvHost(c.BV)
 	mvh := o.ModifyVirtualHost && !strings.EqualFold(refClean(host), backendHost)
 	shield := o.TCPShield && strings.Contains(host, "///")
 	if !mvh && !shield {
@@ -634,6 +818,7 @@ func TestVerif(t *testing.T) {
 		}
 		defer g.close()
 		hss, cls, bks := handshakes(true), clientStreams(true), backendStreams(true)
+		allCls, allBks := append(clientStreams(true), statusRequestStream()), append(backendStreams(true), statusResponseStream())
 		find := func(l []stream, n string) stream {
 			for _, s := range l {
 				if s.Name == n {
@@ -651,13 +836,22 @@ func TestVerif(t *testing.T) {
 					hs = h
 				}
 			}
-			host, wire, canon := buildHS(hs, g.hostOf[c.Opt])
-			cl, bk := find(cls, c.Client), find(bks, c.Backend)
-			res := g.runCase(wire, cl, bk, c.SameSeg)
+			rh := g.hostOf[c.Opt]
+			if c.BV != "" {
+				rh = routeHost(c.Opt, c.BV)
+			}
+			if c.Status {
+				hs.Next = 1
+				// the ping cache is keyed by backend and protocol: start every status case cold
+				lite.ResetPingCache()
+			}
+			host, wire, canon := buildHS(hs, rh)
+			cl, bk := find(allCls, c.Client), find(allBks, c.Backend)
+			res := g.runCase(c.Front, wire, cl, bk, c.SameSeg, c.Status)
 			if res.hung {
 				return "", fmt.Sprintf("case %+v did not finish within 60 s", c), true
 			}
-			k, d := g.check(o, hs, host, wire, canon, cl, bk, c.SameSeg, res)
+			k, d := g.check(c, o, hs, host, wire, canon, cl, bk, c.SameSeg, res)
 			return k, d, false
 		}
 		var rc c31Case
@@ -671,7 +865,8 @@ func TestVerif(t *testing.T) {
 			}
 			return
 		}
-		hss, cls, bks = handshakes(r.Thorough()), clientStreams(r.Thorough()), backendStreams(r.Thorough())
+		hss = handshakes(r.Thorough())
+		cls, bks = clientStreams(r.Thorough()), backendStreams(r.Thorough())
 		// stream pairs: quick varies one side at a time, thorough takes the full product
 		type pair struct{ c, b string }
 		var pairs []pair
@@ -691,6 +886,7 @@ func TestVerif(t *testing.T) {
 			pairs = append(pairs, pair{"40KiB", "40KiB"}, pair{"empty", "empty"})
 		}
 		i, n, nt := 0, 0, 0
+		wedged := false
 	all:
 		for opt := 0; opt <= 16; opt++ {
 			for _, hs := range hss {
@@ -708,6 +904,7 @@ func TestVerif(t *testing.T) {
 						n++
 						if hung {
 							r.NotExhaustive(d)
+							wedged = true
 							break all // the rig may be wedged: stop, the run is recorded as not exhaustive
 						}
 						if k != "" {
@@ -726,6 +923,73 @@ func TestVerif(t *testing.T) {
 						}
 						if n == 3 {
 							r.Sample(c)
+						}
+					}
+				}
+			}
+		}
+		// ---- variants: how the client reaches the proxy x what the route's backend list looks like, and status pings.
+		// Logins: every front x backend variant except the (tcp4, single) product above, all 16 option sets, every
+		// handshake, the default stream pair, bytes in / after the handshake segment. Status pings: every front x
+		// backend variant incl. (tcp4, single), canonical handshakes (with cachePing the proxy re-encodes the
+		// handshake it forwards, which is only byte-identical for canonical encodings; not judged here).
+		runV := func(c c31Case, hsName string) bool {
+			i++
+			if !r.Mine(i) {
+				return true
+			}
+			if r.Expired() || wedged {
+				return false
+			}
+			if !g.available(c.Front, c.BV) {
+				r.Class("variant-unavailable-on-this-machine:" + c.Front + "/" + c.BV)
+				return true
+			}
+			k, d, hung := one(c)
+			n++
+			if hung {
+				r.NotExhaustive(d)
+				return false
+			}
+			if k != "" {
+				r.Violation(k, d, c)
+				r.Class("violating")
+				return true
+			}
+			nt++
+			kind := "login"
+			if c.Status {
+				kind = "status-ping"
+			}
+			f, b := c.Front, c.BV
+			if f == "" {
+				f = "tcp4"
+			}
+			if b == "" {
+				b = "single"
+			}
+			r.Class(kind + ":front=" + f + "/backends=" + b)
+			return true
+		}
+	variants:
+		for _, f := range fronts {
+			for _, bv := range backendVariants {
+				for opt := 0; opt < 16; opt++ {
+					for _, hs := range hss {
+						for _, same := range []bool{false, true} {
+							c := c31Case{Opt: opt, HS: hs.Name, SameSeg: same, Front: f, BV: bv}
+							if !(f == "tcp4" && bv == "single") {
+								c.Client, c.Backend = "login-start", "login-success"
+								if !runV(c, hs.Name) {
+									break variants
+								}
+							}
+							if hs.Next == 2 && !hs.PadFields && !hs.PadLen && hs.Proto != 0x7fffffff {
+								c.Client, c.Backend, c.Status = "status-request", "status-response", true
+								if !runV(c, hs.Name) {
+									break variants
+								}
+							}
 						}
 					}
 				}
